@@ -33,6 +33,10 @@ def run(ctx):
     ctx.rule("R-REG", "decision table by abstract interpretation equals the spec")
     ctx.rule("R-FLOW", "operand provenance")
     check_parsers_do_not_panic(ctx, f)
+    ctx.rule("R-CHK", "every success path passes the required step")
+    K.check_attr_values_unescaped(ctx, f)
+    K.check_scheme_tests_ignore_case(ctx, f)
+    K.check_text_impls_escape(ctx, f)
 
     # ---- C11.a name tables --------------------------------------------------------------
     for mod in MODS:
